@@ -24,7 +24,13 @@ theorem conservation (n : Nat) (hn : 0 < n) (progs : List (List Op)) (sched : Li
     c.shared.rolling + (c.locals.map owes).sum = c.shared.buckets.sum ∧
     (∀ b ∈ c.shared.buckets, 0 ≤ b) ∧ c.shared.buckets.length = n ∧
     c.shared.total = ((c.locals.map (·.incsStarted)).sum : Nat) := by
-  sorry
+  intro c
+  have hI : Inv n c := Inv.run hn progs sched
+  have howes : (c.locals.map owes) = c.locals.map (fun l => owesPc l.pc) := by
+    congr 1
+  refine ⟨?_, hI.nonneg, hI.len, ?_⟩
+  · rw [howes]; exact hI.cons
+  · rw [cast_sum_map]; exact hI.total
 
 /-- QUIESCENCE (all operations have returned): TotalSum = number of Inc calls, rolling sum = Σ buckets,
     0 ≤ rolling sum ≤ number of Inc calls -/
@@ -33,22 +39,55 @@ theorem quiescent_counts (n : Nat) (hn : 0 < n) (progs : List (List Op)) (sched 
     let c := run sys (init n progs) sched
     c.shared.total = (incCount progs : Nat) ∧ c.shared.rolling = c.shared.buckets.sum ∧
     0 ≤ c.shared.rolling ∧ c.shared.rolling ≤ (incCount progs : Nat) := by
-  sorry
+  intro c
+  have hP : InvP n progs c := InvP.run hn progs sched
+  have hI := hP.inv
+  have hQ := (quiescent_iff c).mp hq
+  have h1 : (c.locals.map (fun l => owesPc l.pc)).sum = 0 :=
+    sum_map_zero _ _ (fun l hl => by rw [(hQ l hl).2]; rfl)
+  have h2 : (c.locals.map (fun l => preInc l.pc)).sum = 0 :=
+    sum_map_zero _ _ (fun l hl => by rw [(hQ l hl).2]; rfl)
+  have h3 : (c.locals.map (fun l => ((l.incsStarted + countInc l.prog : Nat) : Int))) =
+      c.locals.map (fun l => (l.incsStarted : Int)) := by
+    apply List.map_congr_left
+    intro l hl
+    rw [(hQ l hl).1]; rfl
+  have h4 := hP.count
+  rw [h3] at h4
+  have h5 := hI.cons
+  have h6 := hI.slack
+  have h7 := hI.total
+  have h8 : 0 ≤ c.shared.buckets.sum := sum_nonneg _ hI.nonneg
+  refine ⟨?_, ?_, ?_, ?_⟩ <;> omega
 
 /-- the newest index only moves forward and never beyond the largest index requested so far -/
 theorem last_bounded (n : Nat) (hn : 0 < n) (progs : List (List Op)) (sched : List Nat) :
     (run sys (init n progs) sched).shared.last ≤ maxRequested progs := by
-  sorry
+  exact (InvP.run hn progs sched).lastB
 
 theorem last_monotone (n : Nat) (hn : 0 < n) (progs : List (List Op)) (sched sched' : List Nat) :
     (run sys (init n progs) sched).shared.last ≤ (run sys (init n progs) (sched ++ sched')).shared.last := by
-  sorry
+  rw [run_app]
+  exact last_mono_run hn _ (Inv.run hn progs sched) sched'
 
 /-- at quiescence the ring's newest index EQUALS the largest index requested -/
 theorem quiescent_last_is_max (n : Nat) (hn : 0 < n) (progs : List (List Op)) (sched : List Nat)
     (hq : quiescent (run sys (init n progs) sched) = true) :
     (run sys (init n progs) sched).shared.last = maxRequested progs := by
-  sorry
+  have hP : InvP n progs (run sys (init n progs) sched) := InvP.run hn progs sched
+  have hQ := (quiescent_iff _).mp hq
+  apply Nat.le_antisymm hP.lastB
+  unfold maxRequested
+  apply foldl_max_le _ _ _ (Nat.zero_le _)
+  intro a ha
+  rcases List.mem_filterMap.mp ha with ⟨o, ho, hr⟩
+  rcases hP.cover a ⟨o, ho, hr⟩ with h | ⟨l, hl, hp⟩
+  · exact h
+  · rcases hp with hp | ⟨o', ho', _⟩
+    · rw [(hQ l hl).2] at hp
+      exact Nat.le_trans hp (Nat.zero_le _)
+    · rw [(hQ l hl).1] at ho'
+      cases ho'
 
 /-- when no operation has to roll the window (every requested index is 0, the initial newest index) and nobody
     resets, the rolling sum at quiescence is EXACTLY the number of in-window Inc calls -/
@@ -60,7 +99,22 @@ theorem no_roll_exact (n : Nat) (hn : 0 < n) (progs : List (List Op)) (sched : L
     (hnoreset : ∀ o ∈ progs.flatten, ∀ r, o ≠ .reset r)
     (hq : quiescent (run sys (init n progs) sched) = true) :
     (run sys (init n progs) sched).shared.rolling = (inWindowIncs progs : Nat) := by
-  sorry
+  have hops : ∀ o ∈ progs.flatten, okOp o := fun o ho => ⟨hnoroll o ho, hnoreset o ho⟩
+  have hN := InvNR.run hn progs hops sched
+  have hI : Inv n (run sys (init n progs) sched) := Inv.run hn progs sched
+  have hQ := (quiescent_iff _).mp hq
+  have h1 : ((run sys (init n progs) sched).locals.map (fun l => owesPc l.pc)).sum = 0 :=
+    sum_map_zero _ _ (fun l hl => by rw [(hQ l hl).2]; rfl)
+  have h2 : ((run sys (init n progs) sched).locals.map
+      (fun l => preInc l.pc + (countW l.prog : Int))).sum = 0 :=
+    sum_map_zero _ _ (fun l hl => by rw [(hQ l hl).2, (hQ l hl).1]; rfl)
+  have h3 := hN.sumW
+  have h4 := hI.cons
+  have h5 : inWindowIncs progs = winCount progs := by
+    unfold inWindowIncs winCount
+    congr 2
+  rw [h5]
+  omega
 
 /-- non-vacuity: two threads racing the roll-over from bucket 0 to bucket 1 of a 2-bucket ring -/
 example : quiescent (run sys (init 2 [[.inc (some 0), .inc (some 1)], [.inc (some 1)]])
